@@ -192,13 +192,15 @@ def run_case(ck, desc):
         obj = fp.FlowPropertiesTwoPhase.from_table(arg, df_kr, refd, desc["phi"], Sw, p_i)
     if not instrument.same_snapshot(snap, instrument.snapshot(arg)):
         ck.violation("caller-table-unmodified", {}, desc)
-    if not CAPTURED:
-        ck.inconclusive_because("spy on pseudopressure_threephase saw no call from from_table")
-        return False, None
-    _, _, inner = CAPTURED[-1]
     got = np.asarray(obj.pvt_props["pseudopressure"], dtype=float)
-    if not np.array_equal(got, inner):
-        ck.violation("from_table-uses-threephase-pseudopressure", {}, desc)
+    if not CAPTURED:
+        # the table's pseudopressure is judged below whichever routine produced it
+        ck.count("from_table_calls_that_bypassed_the_spy")
+    else:
+        ck.count("spy_evaluations.pseudopressure_threephase")
+        _, _, inner = CAPTURED[-1]
+        if not np.array_equal(got, inner):
+            ck.violation("from_table-uses-threephase-pseudopressure", {}, desc)
     So = cols["So"]
     kr_own = {k: (lambda s, k=k: np.interp(s, np.asarray(df_kr["So"]), np.asarray(df_kr[k]))) for k in ("kro", "krg", "krw")}
     pvt_own = {k: (lambda x, k=k: np.interp(x, P, cols[k])) for k in ("Bo", "Bg", "Bw", "Rs", "Rv", "mu_o", "mu_g", "mu_w")}
